@@ -245,6 +245,78 @@ fn c12_frag_parse_start_edges() {
 	kani::cover!(true, "reached");
 }
 
+// @verif property=C08 tier=quick mem=16 timeout=2400
+// @encodes peppi::io::slippi::de::parse_start (parse_payloads, parse_game_start, game_start, MutableFrame::with_capacity) on a replay of a newer version whose known events are all declared longer than the newest known layout
+// @symbolic 24 the three version bytes of the Game Start block (every version >= 3.16.0 incl. every other major)
+// @bound port-free stream: 8-entry payload table (Game Start 320; Frame Pre/Post/Start/Item/End and Game End each 3 bytes longer than their 3.16 layout; splitter 516) + Game Start block
+// @assume the rest of the stream is concrete; oracle: the stream is accepted, the declared sizes are kept, the version is reported as written
+// @stub alloc::fmt::format = returns an empty String
+// @stub std::hash::RandomState::new = fixed keys
+// @cbmc --max-field-sensitivity-array-size 1024
+#[kani::proof]
+#[kani::unwind(12)]
+#[kani::stub(alloc::fmt::format, format_stub)]
+#[kani::stub(std::hash::RandomState::new, random_state_stub)]
+fn c08_parse_start_newer_version_longer_payloads() {
+	let newest = Version(3, 16, 0);
+	let ver: [u8; 3] = kani::any();
+	kani::assume(ver[0] > 3 || (ver[0] == 3 && ver[1] >= 16));
+	let extra = 3usize;
+	let sizes: [(u8, usize); 8] = [
+		(0x36, 320),
+		(0x37, 6 + spec_size_pre(newest) + extra),
+		(0x38, 6 + spec_size_post(newest) + extra),
+		(0x39, 6 + extra),
+		(0x3A, 4 + spec_size_start(newest) + extra),
+		(0x3B, 4 + spec_size_item(newest) + extra),
+		(0x3C, 4 + spec_size_end(newest) + extra),
+		(0x10, 516),
+	];
+	const N: usize = 2 + 3 * 8 + 1 + 320;
+	let mut s: [u8; N] = [0u8; N];
+	s[0] = 0x35;
+	s[1] = 1 + 3 * 8;
+	let mut k = 0;
+	while k < 8 {
+		s[2 + 3 * k] = sizes[k].0;
+		s[2 + 3 * k + 1] = (sizes[k].1 >> 8) as u8;
+		s[2 + 3 * k + 2] = (sizes[k].1 & 0xff) as u8;
+		k += 1;
+	}
+	const B: usize = 2 + 3 * 8 + 1;
+	s[B - 1] = 0x36;
+	s[B] = ver[0];
+	s[B + 1] = ver[1];
+	s[B + 2] = ver[2];
+	let mut p = 0;
+	while p < 6 {
+		s[B + 100 + 36 * p + 1] = 3;
+		p += 1;
+	}
+	let mut r = &s[..];
+	let res = peppi::io::slippi::de::parse_start(&mut r, None);
+	match &res {
+		Ok(state) => {
+			assert!(state.bytes_read() == N);
+			assert!(r.len() == 0);
+			let v = state.start().slippi.version;
+			assert!(v.0 == ver[0] && v.1 == ver[1] && v.2 == ver[2]);
+			let mut k = 0;
+			while k < 8 {
+				assert!(state.verif_payload_size(sizes[k].0) == Some(sizes[k].1 as u16));
+				k += 1;
+			}
+			assert!(state.frames().len() == 0);
+		}
+		// a newer replay with longer payloads is not an error, whatever its major version
+		Err(_) => assert!(false),
+	}
+	kani::cover!(ver[0] == 4 && ver[1] == 0, "a 4.0.x replay");
+	kani::cover!(ver[0] == 3 && ver[1] == 17, "a 3.17.x replay");
+	kani::cover!(ver[0] == 255, "major 255");
+	forget(res);
+}
+
 fn frag_parse_start(mode: Split) {
 	// only the random seed (last four bytes of the block) is symbolic: the block's parsing is
 	// C05's subject, and a fully symbolic block through the fragmenting reader costs > 25 min
